@@ -130,6 +130,8 @@ def build(c, key):
 SHAPE_PRELUDE = (PRELUDE + "pub struct W2<A, B>(pub A, pub B);\n"
                  "impl<A, B: fmt::Debug> fmt::Debug for W2<A, B> { fn fmt(&self, f: &mut fmt::Formatter<'_>) -> fmt::Result { self.1.fmt(f) } }\n"
                  "pub trait TrQ { type Assoc; }\nimpl<X: ?Sized> TrQ for X { type Assoc = u8; }\n"
+                 "pub trait TrQA<X: ?Sized> { type Assoc; }\nimpl<X: ?Sized, Y: ?Sized> TrQA<X> for Y { type Assoc = u8; }\n"
+                 "pub trait TrG { type Of<X>; }\nimpl<Y: ?Sized> TrG for Y { type Of<X> = u8; }\n"
                  "pub trait TrA<X: ?Sized>: fmt::Debug {}\npub trait TrO: fmt::Debug { type Out: ?Sized; }\n")
 
 
@@ -140,7 +142,8 @@ def render_shape(t):
              "ref": f"&'static {x}", "slice": f"&'static [{x}]", "fn_in": f"fn({x}) -> u8", "fn_out": f"fn(u8) -> {x}",
              "tuple": f"(u8, {x})", "dyn_arg": f"Box<dyn TrA<{x}>>", "dyn_assoc": f"Box<dyn TrO<Out = {x}>>",
              "dyn_fn_in": f"Box<dyn Fn({x}) -> u8>", "dyn_fn_out": f"Box<dyn Fn(u8) -> {x}>",
-             "qself": f"<{x} as TrQ>::Assoc", "proj": f"{x}::Assoc"}[w]
+             "qself": f"<{x} as TrQ>::Assoc", "proj": f"{x}::Assoc",
+             "qtrait": f"<i32 as TrQA<{x}>>::Assoc", "qgat": f"<i32 as TrG>::Of<{x}>"}[w]
     return x
 
 
